@@ -8,12 +8,19 @@ Local Open Scope Z_scope.
 
 Definition dec_kind (z : Z) : kind := if z =? 0 then KBits else if z =? 1 then KBitmap else KDsz.
 Definition dec_op (c t a : Z) : option op :=
-  let tb := bz t in let n := Z.to_N a in let k := Z.to_nat a in
-  if c =? 0 then Some (OAdd tb n) else if c =? 1 then Some (ORemove tb n) else
-  if c =? 2 then Some (OContains tb n) else if c =? 3 then Some (OLen tb) else
+  let tb := bz t in let n := Z.to_N a in   (* no unary `Z.to_nat a` here: extraction is strict and a may be 2^60 *)
+  (* Remove / Contains take the argument as the Go harness converts it: uint(a), i.e. a negative token stands for
+     2^64 + a (values with the top bit set: an argument converted to a signed type would go negative) *)
+  let au := if a <? 0 then 2 ^ 64 + a else a in
+  (* the model indexes words by a unary nat: an argument beyond 2^20 is replaced by the representative 2^20 + (au mod 64),
+     which lies beyond the capacity of every set a case can build (Add / Grow arguments are at most 2^18) and has the
+     same bit index, so Remove / Contains answer the same (false, set unchanged) *)
+  let nu := Z.to_N (if 2 ^ 20 <=? au then 2 ^ 20 + au mod 64 else au) in
+  if c =? 0 then Some (OAdd tb n) else if c =? 1 then Some (ORemove tb nu) else
+  if c =? 2 then Some (OContains tb nu) else if c =? 3 then Some (OLen tb) else
   if c =? 4 then Some (OCap tb) else if c =? 5 then Some (OGrow tb n) else
-  if c =? 6 then Some (OIter tb) else if c =? 7 then Some (ORange tb k) else
-  if c =? 8 then Some (OAll tb k) else if c =? 9 then Some (ODiff tb) else
+  if c =? 6 then Some (OIter tb) else if c =? 7 then Some (ORange tb (Z.to_nat a)) else
+  if c =? 8 then Some (OAll tb (Z.to_nat a)) else if c =? 9 then Some (ODiff tb) else
   if c =? 10 then Some (OIntersect tb) else if c =? 11 then Some (OMerge tb) else
   if c =? 12 then Some (OClone tb) else None.
 Fixpoint dec_ops (fuel : nat) (l : list Z) : option (list op) :=
